@@ -1,8 +1,8 @@
-from . import utils_contracts
+from . import utils_contracts, class_contracts
 CONTRACTS = {}
 LEMMAS = {}
 PREDS = {}
-for m in (utils_contracts,):
+for m in (utils_contracts, class_contracts):
     CONTRACTS.update(m.CONTRACTS)
     LEMMAS.update(m.LEMMAS)
     PREDS.update(m.PREDS)
